@@ -26,10 +26,12 @@ from vlib import cz, cn, cbool, clist
 AREA = "Buffer"
 P = "Arc.Buffer.Props"
 O = "Arc.Buffer.Obligations"
-THEOREMS = [(P, "C03_bucket_floor"), (P, "C03_group_partition"), (P, "C03_sort_perm_sorted"), (P, "C03_sort_paths"),
-            (P, "C03_sorted_image"), (P, "C03_merge_rows"), (P, "C03_flush_files"), (P, "C03_conservation"),
-            (P, "C03_stored_files"), (P, "C03_close_refuted"), (P, "C03_flush_close_stores_all"),
-            (O, "C03_params_ok"), (O, "C03_deployed_bucket_floor"), (O, "C03_deployed_sort"), (O, "C03_deployed_stores_all")]
+THEOREMS = [(P, "C03_accepted_rows_stored_once"),                       # PRIMARY (the code as it is)
+            (P, "C03_bucket_floor"), (P, "C03_group_partition"), (P, "C03_sort_perm_sorted"), (P, "C03_sort_paths"),
+            (P, "C03_merge_rows"), (P, "C03_flush_files"), (P, "C03_key_sound"), (P, "C03_conservation"),
+            (P, "C03_stored_files"), (P, "C03_flush_close_stores_all"),
+            (P, "C03_close_refuted"),                                    # about the Close before 2ed39c6
+            (O, "C03_deployed")]                                         # PRIMARY at the constants of the current source
 MODULES = [P, O]
 TIE_NAME = "C03 correspondence (ingest kernels + ArrowBuffer over in-memory storage vs Arc.Buffer.Model) / Params_Buffer"
 KF_CLOSE = "close-abandons-queued-flush-tasks"
@@ -98,6 +100,7 @@ def gen_cases(rng, tier, H, thr):
                 n = lb.col_len(b["cols"][0])
                 b["cols"].append({"n": nm, "t": "s", "s": ["q"] * n})
         add({"kind": "sig", "batch": b})
+        add({"kind": "key", "batch": b})
     # --- mergeBatches
     for _ in range(200 * mult):
         k = rng.choice([1, 2, 2, 3, 3, 4])
@@ -156,6 +159,15 @@ def gen_cases(rng, tier, H, thr):
                 w.append({"op": "write", "key": rng.choice(keys), "batch": lb.gen_batch(rng, H, schema=rng.choice(schemas), n=rng.randint(1, 4)), "via": "typed"})
             writers.append(w)
         add({"kind": "conc", "cfg": cfg, "writers": writers, "fn": rng.choice([0, 1])})   # fn=1: Close without a preceding FlushAll
+    # --- forced schedules through the lock-released I/O window of the schema-change flush
+    for i in range(10 * mult):
+        tys = rng.choice([("f", "i"), ("i", "f"), ("s", "i"), ("b", "i"), ("i", "s"), ("f", "s")])
+        extra = [("tag", "s")] if rng.random() < 0.5 else []
+        sa, sb = [("v", tys[0])] + extra, [("v", tys[1])] + extra
+        bs = [lb.gen_batch(rng, H, schema=sa, n=rng.randint(1, 3), nulls=False),
+              lb.gen_batch(rng, H, schema=sb, n=rng.randint(1, 3), nulls=False),
+              lb.gen_batch(rng, H, schema=sa, n=rng.randint(1, 3), nulls=False)]
+        add({"kind": "race", "cfg": {"max_size": 1000, "workers": 1, "queue": 16, "age_ms": 0, "shards": 1}, "key": "db/race", "batches": bs})
     return cases
 
 
@@ -206,6 +218,8 @@ def case_terms(c, o, H, thr):
         return ["CPerm (%d) %s %s %s" % (o["h"], cn(c["fn"]), coq_zlist(c["ts"]), obs)]
     if k == "sig":
         return ["CSig %s %s" % (coq_batch(c["batch"]), vlib.cbytes(o.get("sig", "").encode()))]
+    if k == "key":
+        return ["CKey %s %s" % (coq_batch(c["batch"]), vlib.cbytes(o.get("sig", "").encode("utf-8", "surrogateescape")))]
     if k == "merge":
         obs = {"ok": lambda: "(MObs %s)" % coq_batch(o["merged"]), "err": lambda: "MObsErr", "panic": lambda: "MObsPanic"}[o["outcome"]]()
         return ["CMerge %s %s" % (clist([coq_batch(b) for b in c["batches"]]), obs)]
@@ -222,6 +236,17 @@ def case_terms(c, o, H, thr):
         writes = [op for wi, w in enumerate(c["writers"]) for oi, op in enumerate(w) if wi * 10000 + oi not in rej]
         return ["CConc (%d) %s %s" % (H, clist(["(%s, %s)" % (cn(keys.id(op["key"])), coq_batch(op["batch"])) for op in writes]) if writes else "[]",
                                       clist([coq_kfile(keys, f) for f in o["files"]]) if o["files"] else "[]")]
+    if k == "race":
+        kid = cn(keys.id(c["key"]))
+        a1, b, a2 = (coq_batch(x) for x in c["batches"])
+        rej = set(o.get("rejected") or [])
+        if rej:
+            raise vlib.TieBroken("race case: a write was rejected (%s)" % sorted(rej))
+        ls = ["LWrite %s %s true" % (kid, a1), "LSchemaFlush %s" % kid, "LWrite %s %s true" % (kid, a2), "LDone 0 OOk",
+              "LSchemaFlush %s" % kid, "LDone 0 OOk", "LWrite %s %s true" % (kid, b), "LFlushAllExtract %s" % kid, "LDone 0 OOk",
+              "LCloseBegin", "LCloseWait", "LCloseEnd"]
+        return ["CLabels (%d) (%d) %s %s %s" % (H, thr, coq_cfg(c["cfg"], fix=True), clist(ls),
+                                               clist([coq_kfile(keys, f) for f in o["files"]]) if o["files"] else "[]")]
     if k == "closew":
         out = []
         for files in o["trials"]:
@@ -240,7 +265,7 @@ def nontrivial(c):
         return len(c["ts"]) >= 2
     if k == "perm":
         return len(c["ts"]) >= 2 and c["ts"] != sorted(c["ts"])
-    if k == "sig":
+    if k in ("sig", "key"):
         return len(c["batch"]["cols"]) >= 2
     if k == "merge":
         bs = c["batches"]
@@ -300,7 +325,7 @@ def warm():
     lb.run_harness("C03", [], tag="warm")
 
 
-def run(res, tier, seed):
+def _run(res, tier, seed):
     rng = random.Random(seed * 7919 + 3)
     t0 = time.time()
     try:
@@ -312,6 +337,10 @@ def run(res, tier, seed):
 
     failed = vlib.std_proof_stage(res, "C03", AREA, MODULES, THEOREMS,
                                   extra_targets=["theories/Buffer/Obligations.vo"])
+    if tier == "thorough":
+        ok, _ = vlib.coqchk_stage(res, ["Arc.Buffer.Props", "Arc.Buffer.Obligations"])
+        if not ok:
+            failed.append(("coqchk", "coqchk rejected the compiled development or reported inadmissible axioms"))
     res.cov["trusted_base"] += [
         "Parquet/Arrow encode (pqarrow writer) and decode (harness) are library code: a file is observed through its decoded cells",
         "sort.Slice (pdqsort) is library code: the comparison path is modelled by the stable sort of (time, index); the Go result is checked to be a sorted permutation on every case",
@@ -319,7 +348,7 @@ def run(res, tier, seed):
         "counting sort pass of radixPermuteByTime is modelled by its denotation (stable distribution by digit); tied by exact permutation equality on arrays around and above radixSkipThreshold",
         "goroutines are anonymous and their atomic sections are the labels of Protocol.v (lock-protected sections, channel operations); the Go memory model / scheduler fairness is not modelled",
         "the non-default sort keys and decimal128 columns are outside the model (property: default configuration)",
-        "hypothesis sig_sound (batches with equal column signature agree on column types) holds for plain column names; names that are empty, start with '_' or contain ',' / ':' are C04's subject",
+        "input hypothesis of the end-to-end theorems: accepted batches are well formed (int64 time column, all columns of one length, >= 1 row); that batches sharing a buffer agree on column types is proved (C03_key_sound), not assumed",
     ]
 
     t1 = time.time()
@@ -384,13 +413,13 @@ def run(res, tier, seed):
     res.cov["close_witness"] = {"trials": ntrials, "trials_losing_accepted_rows": close_lost}
     if close_lost:
         res.known_finding("%s: ArrowBuffer.Close returned with accepted batches never written in %d of %d trials "
-                          "(1 worker blocked in storage.Write, 11 size-triggered flush tasks queued; model predicts the loss: C03_close_refuted)"
+                          "(1 worker blocked in storage.Write, 11 size-triggered flush tasks queued)"
                           % (KF_CLOSE, close_lost, ntrials))
     reported = False
     if bad:
         bad = sorted(set(bad), key=lambda i: len(json.dumps(cases[i])))
         c = cases[bad[0]]
-        small = shrink_case(c, still(2)) if c["kind"] not in ("conc", "closew") else c
+        small = shrink_case(c, still(2)) if c["kind"] not in ("conc", "closew", "race") else c
         ob, d2, o2 = rerun(small)
         res.violation("property oracle fails on the implementation's output (%s case; %d failing cases, kinds %s)"
                       % (c["kind"], len(bad), sorted({cases[i]["kind"] for i in bad})),
@@ -406,13 +435,29 @@ def run(res, tier, seed):
     only_dis = sorted({owner[ti] for ti in dis} - set(bad), key=lambda i: len(json.dumps(cases[i])))
     if only_dis:
         c = cases[only_dis[0]]
-        small = shrink_case(c, still(1)) if c["kind"] not in ("conc", "closew") else c
+        small = shrink_case(c, still(1)) if c["kind"] not in ("conc", "closew", "race") else c
         ob, d2, o2 = rerun(small)
         res.violation("model and implementation disagree on a %s case (%d disagreeing cases, kinds %s)"
                       % (c["kind"], len(only_dis), sorted({cases[i]["kind"] for i in only_dis})),
                       {"kind": "correspondence", "correspondence": TIE_NAME, "case": small, "observed": ob,
                        "disagreeing_cases": len(only_dis), "oracle_fails_on_impl": o2},
                       no_input=not o2, suffix="corr")
+
+
+def run(res, tier, seed):
+    """A change of the code under test must never surface as an infrastructure error (exit 2) or as
+    a Python traceback: whatever goes wrong while tying the model to the current source is a broken
+    tie, reported as VIOLATION ... no-failing-input-found with the reason."""
+    try:
+        _run(res, tier, seed)
+    except vlib.TieBroken:
+        raise
+    except vlib.InfraError as e:
+        raise vlib.TieBroken("%s: the model could not be evaluated against the current source: %s" % (__name__, e))
+    except Exception as e:                                   # noqa: BLE001
+        import traceback
+        raise vlib.TieBroken("%s: unexpected %s while checking the current source: %s\n%s"
+                             % (__name__, type(e).__name__, e, traceback.format_exc()[-1500:]))
 
 
 def load_corpus():
